@@ -13,6 +13,7 @@ tvars == <<vars, l, pend, res>>
 
 TraceInit ==
     /\ l = 1 /\ chain = [r \in Roots |-> 0] /\ map = Empty /\ now = 0 /\ last = NoReply
+    /\ parent = [r \in Roots |-> NoRoot] /\ ehead = NoRoot /\ heads = {}
     /\ pend = {} /\ res = <<>>
     /\ InitHWM
 
@@ -25,6 +26,7 @@ TraceReset ==
     /\ IsEvent("Reset")
     /\ chain' = [r \in Roots |-> Line.chain[r]]
     /\ map' = Empty /\ now' = Line.now /\ last' = NoReply
+    /\ parent' = [r \in Roots |-> IF "parent" \in DOMAIN Line THEN Line.parent[r] ELSE NoRoot] /\ ehead' = NoRoot /\ heads' = {}
     /\ pend' = {} /\ res' = <<>>
 
 \* the driver is about to call the operation
@@ -38,6 +40,8 @@ Lin ==
     /\ l <= TraceLen
     /\ \E o \in pend :
          /\ \/ o.op = "event" /\ BlockEvent(o.root)
+            \/ o.op = "ctlevent" /\ CtlBlockEvent(o.root)
+            \/ o.op = "head" /\ HeadEvent(o.root, TRUE)
             \/ o.op = "clean" /\ Clean
             \/ o.op = "lookup" /\ (LookupHit(o.root) \/ LookupMissOk(o.root) \/ LookupMissErr(o.root))
          /\ pend' = pend \ {o}
@@ -66,7 +70,7 @@ TLookup ==
 TAdvance ==
     /\ IsEvent("Advance") /\ pend = {}
     /\ now' = Line.now /\ last' = NoReply
-    /\ UNCHANGED <<chain, map, pend, res>>
+    /\ UNCHANGED <<chain, parent, map, ehead, heads, pend, res>>
 
 TraceNext == TraceReset \/ TCall \/ Lin \/ TRet \/ TLookup \/ TAdvance
 TraceSpec == TraceInit /\ [][TraceNext]_tvars
